@@ -42,6 +42,9 @@ def discharge(site, fx, extra_classes=()):
     for (name, pred, reason, kind) in list(extra_classes) + C.CLASSES:
         try:
             if pred(site, fx):
+                if kind == "deny":
+                    # a belief of the general table that does not hold in this cone's input domain
+                    return None
                 return (name, reason, kind)
         except Exception as e:  # a predicate must never crash the check: treat as not matching
             continue
